@@ -49,8 +49,11 @@ def gen_tables(rng, tier, seed):
         if r < 0.36:
             kind = 'classic' if classic else rng.choice(['le_coc', 'le_coc', 'ecbfc'])
             ops.append(['open', link, rng.randrange(2), kind, rng.randrange(2), rng.choice([1, 1, 2, 3]) if kind == 'ecbfc' else 1])
-        elif r < 0.58:
+        elif r < 0.54:
             ops.append(['close', rng.randrange(8), rng.randrange(2)])
+        elif r < 0.58:
+            # both ends close the same channel at (nearly) the same moment: the two Disconnection Requests cross
+            ops.append(['close_both', rng.randrange(8), rng.randrange(2), rng.choice([0, 0, 0.0002, 0.001, 0.005])])
         elif r < 0.66:
             ops.append(['refused', link, rng.randrange(2), 'classic' if classic else rng.choice(['le_coc', 'ecbfc'])])
         elif r < 0.80:
@@ -283,6 +286,42 @@ def _do_close(cx, idx, side):
     return True
 
 
+def _do_close_both(cx, idx, first, stagger):
+    """Both ends ask for the disconnection; the second `stagger` virtual seconds after the first. Either caller may be told
+    that the channel is closed already (an exception) - neither may wait forever, and both ends must end up closed."""
+    sim = cx.sim
+    if not cx.chans:
+        return True
+    ch = cx.chans[idx % len(cx.chans)]
+    cx.chans.remove(ch)
+
+    async def later(end, delay):
+        if delay:
+            await asyncio.sleep(delay)
+        await end.disconnect()
+    ts = [sim.loop.create_task(later(ch.ends[first], 0)), sim.loop.create_task(later(ch.ends[1 - first], stagger))]
+    st = sim.loop.drive(lambda: all(t.done() for t in ts), 60.0)
+    sim.probe('both_ends_close_the_same_channel')
+    if st != 'done':
+        t = next(t for t in ts if not t.done())
+        sim.violation_once('close-hang', f'close-hang:{ch.kind}:by=both', describe_task(t))
+        for t in ts:
+            t.cancel()
+        return False
+    sim.loop.settle()
+    if all(not t.cancelled() and t.exception() is None for t in ts):
+        sim.probe('crossing_closes_both_returned')
+    cx.reused_possible[(ch.link, ch.kind)] = True
+    for s in (0, 1):
+        e = ch.ends[s]
+        closed = (e.state == e.State.CLOSED) if ch.kind == 'classic' else (e.state == e.State.DISCONNECTED)
+        if not closed:
+            sim.violation_once('close-state', f'close:state-not-closed:{ch.kind}:by=both', f'state {e.state.name}')
+            return False
+    cx.shape.append(('close_both', ch.kind))
+    return True
+
+
 def _do_data(cx, idx, side, size):
     sim = cx.sim
     if not cx.chans:
@@ -415,6 +454,8 @@ def run_tables(case):
                 ok = _do_open(cx, link, side, ck, psm_i, count)
             elif kind == 'close':
                 ok = _do_close(cx, op[1], op[2])
+            elif kind == 'close_both':
+                ok = _do_close_both(cx, op[1], op[2], op[3])
             elif kind == 'data':
                 ok = _do_data(cx, op[1], op[2], op[3])
             elif kind == 'refused':
